@@ -568,6 +568,7 @@ class ADWIN(BaseWindow):
         # pylint: disable=too-many-locals, too-many-nested-blocks
         # NOTE: Refactor function
         self.num_instances += 1
+        self.drift = False
         self._insert_bucket(value=value)
 
         if (
